@@ -328,7 +328,7 @@ class Evaluator:
     def arg_scalar(self, n, sheet, at):
         return self.scalar(self.ev(n, sheet, at))
 
-    def numeric_items(self, args, sheet, at):
+    def numeric_items(self, args, sheet, at, date_flag='date_cells_are_numbers'):
         """numeric cells of areas (+ numeric scalars); returns (numbers, n_dates) honouring the date flag"""
         nums = []
         for a in args:
@@ -341,7 +341,7 @@ class Evaluator:
                     if is_num(x):
                         nums.append(x)
                     elif isinstance(x, dt.datetime):
-                        if self.choose('date_cells_are_numbers'):
+                        if self.choose(date_flag):
                             nums.append(serial(x))
             else:
                 if is_num(v):
@@ -429,7 +429,7 @@ def _max(ev, a, sh, at):
 
 @fn('COUNT', 1, 254)
 def _count(ev, a, sh, at):
-    return len(ev.numeric_items(a, sh, at))
+    return len(ev.numeric_items(a, sh, at, date_flag='date_cells_are_counted'))      # a clause of its own: counting is not folding
 
 
 @fn('COUNTBLANK', 1, 254)
